@@ -68,6 +68,31 @@ func runC01(r *ev.Run) {
 		}
 	}
 
+	// (ii-b) ordinary columns that are named like the rowid keywords: the declared column wins
+	for _, ps := range []int{512, 4096} {
+		t5 := dbgen.Table{Name: "t5", SQL: "CREATE TABLE t5 (oid TEXT, rowid INTEGER, label, c4)", NCols: 4, ColNames: []string{"oid", "rowid", "label", "c4"}, RowidAlias: -1, Defaults: make([]interface{}, 4)}
+		t6 := dbgen.Table{Name: "t6", SQL: "CREATE TABLE t6 (_ROWID_, a INTEGER PRIMARY KEY, OID)", NCols: 3, ColNames: []string{"_ROWID_", "a", "OID"}, RowidAlias: 1, Defaults: make([]interface{}, 3)}
+		for i := 0; i < 9; i++ {
+			t5.Rows = append(t5.Rows, dbgen.Row{Rowid: int64(i*5 + 2), Vals: []interface{}{fmt.Sprintf("o%d", i), int64(1000 - i), mixVal(i), nil}})
+			t6.Rows = append(t6.Rows, dbgen.Row{Rowid: int64(i*3 + 1), Vals: []interface{}{fmt.Sprintf("r%d", i), nil, int64(-i)}})
+		}
+		spec := &dbgen.Spec{PageSize: ps, Tables: []dbgen.Table{t5, t6}}
+		img, err := dbgen.Build(spec)
+		if err != nil {
+			r.Harness("dbgen t5: %v", err)
+			continue
+		}
+		if err := Conform(spec, img); err != nil {
+			r.Harness("conformance t5/t6 ps=%d: %v", ps, err)
+			continue
+		}
+		r.Validated(1)
+		r.StateBytes(img.Bytes)
+		si := &ShapeImage{Spec: spec, Img: img, Desc: map[string]interface{}{"family": "columns-named-like-rowid", "page_size": ps}}
+		c01Image(r, si, "t5", columnLists([]string{"oid", "rowid", "label", "_rowid_", "OID", "RowID", "c4"}, 3))
+		c01Image(r, si, "t6", columnLists([]string{"_rowid_", "a", "oid", "rowid", "_ROWID_", "Oid"}, 3))
+	}
+
 	// (iii) SQLite-written files
 	fwRun(r, "C01")
 }
@@ -243,6 +268,12 @@ INSERT INTO z SELECT i, i%%13, CASE i%%3 WHEN 0 THEN 'k'||(i%%5) WHEN 1 THEN 'K'
 			`DROP INDEX z_a`,
 			`CREATE INDEX z_expr2 ON z (a * 2)`,
 			`VACUUM`,
+		}},
+		{"named-like-rowid", []string{
+			`CREATE TABLE r (oid TEXT, rowid INTEGER, label)`,
+			`INSERT INTO r VALUES ('a', 100, 'x'), ('b', 200, 'y'), ('c', NULL, 'z')`,
+			`CREATE TABLE r2 (_rowid_ TEXT, id INTEGER PRIMARY KEY, v)`,
+			`INSERT INTO r2 VALUES ('p', 7, 1), ('q', 9, 2)`,
 		}},
 		{"alter-defaults", []string{
 			`CREATE TABLE t (id INTEGER PRIMARY KEY, v)`,
